@@ -109,7 +109,7 @@ def equivalent(decls, a, b, timeout_ms=5000):
     return valid(decls, "(= %s %s)" % (a, b), timeout_ms)
 
 
-def any_equivalent_pair(decls, terms, extra=(), timeout_ms=300, max_n=45):
+def any_equivalent_pair(decls, terms, extra=(), timeout_ms=300, max_n=90):
     """True iff two of `terms` (or one of `extra` and one of `terms`) are equivalent; one z3 context for all."""
     terms = list(terms)
     extra = list(extra)
